@@ -50,3 +50,30 @@ Proof.
     destruct Hpost as (Hl & _). rewrite overlay_same_length by exact Hl. reflexivity. }
   rewrite Hcc in H. cbn [fst snd] in H. exact H.
 Qed.
+
+(* `reg.write(|r| r.set_x(v))`: exactly one write whose bytes are the RESET value with the set-bits of x's
+   declared range replaced by v's (and with `write_with_zero`, the all-zero array instead of the reset value). *)
+Theorem write_sets_only_the_field ptrw bo bi size f v orc h a reset :
+  In ptrw ptr_widths -> 0 < size ->
+  field_ok size f -> 0 <= f_start f -> field_end f - f_start f <= 128 ->
+  List.length reset = nbytes size -> bytes_ok reset ->
+  exists data,
+    store_post (to_byte_order bo) (to_bit_order bi) v (f_start f) (field_end f) reset data /\
+    run orc (reg_write a size reset (field_setter_closure ptrw bo bi f v)) h =
+      let c := RegWrite a size data in
+      let r := orc h c in
+      ([(c, r)], Done (match r_res r with ROk _ => ROk tt | RErr e => RErr e end)).
+Proof.
+  intros Hp Hsz Hf Hf0 Hfw Hlr Hreset.
+  assert (Hlen : Z.of_nat (List.length reset) = div_ceil8 size).
+  { rewrite Hlr. apply nbytes_div_ceil8. lia. }
+  destruct (setter_writes_declared_range ptrw bo bi size f v reset) as (data & Hset & Hpost);
+    try assumption; try lia.
+  exists data. split; [exact Hpost|].
+  pose proof (reg_write_spec unit orc h a size reset (field_setter_closure ptrw bo bi f v) Hlr) as H.
+  cbv zeta in H. destruct H as [_ H].
+  assert (Hcc : call_closure (field_setter_closure ptrw bo bi f v) reset = (data, tt)).
+  { unfold call_closure, field_setter_closure. rewrite Hset.
+    destruct Hpost as (Hl & _). rewrite overlay_same_length by exact Hl. reflexivity. }
+  rewrite Hcc in H. cbn [fst snd] in H. exact H.
+Qed.
